@@ -22,7 +22,7 @@ MC = {"C06": ("MC_C06", ["TraitCall", "RunDelegatingBody", "CalleeBody", "TraitR
       "C07": ("MC_C06", ["TraitCall", "RunDelegatingBody", "CalleeBody", "TraitRet"]),
       "C05": ("MC_C05", ["TraitCall", "ImplTBody", "ConcreteBody", "ProviderBody", "FnBody", "Return"])}
 RULE = {"C05": "concrete dependency shapes {ident, path, generic instantiation, tuple, reference with explicit lifetime} x sync/async x "
-               "{owned, borrowed-from-deps, borrowed-from-argument} returns x <= N parameters; per program a direct call, a call on C, on "
+               "{owned, borrowed-from-deps, borrowed-from-argument} returns x <= N parameters x {not mockable, `mockall`}; per program a direct call, a call on C, on "
                "Impl<C> and on Impl<App> (hand-written `impl Tr for App`), plus availability of C, Impl<C>, App, Impl<App>, X, Impl<X>, "
                "a non-Sync App and its Impl"}
 
@@ -41,7 +41,7 @@ def main(pid="C06"):
         groups = {}
         for c in cases:
             p = c["prog"]
-            key = (p["async"], p.get("sel"), p.get("extra"), p.get("kind"), p.get("depbounds"), len(p["params"]), p.get("shape"), p.get("ret"), p.get("target"))
+            key = (p["async"], p.get("sel"), p.get("extra"), p.get("kind"), p.get("depbounds"), len(p["params"]), p.get("shape"), p.get("ret"), p.get("target"), p.get("mock"))
             groups.setdefault(key, []).append(c)
         sel = []
         for k in sorted(groups, key=str):
